@@ -6,6 +6,7 @@ from .. import core, mapmodel as mm, docgen, faults, observe, x12ref
 from . import c02
 
 PID = 'C03'
+LEVEL = 'fault_enumeration'
 RULE = ('Conformant documents with two transaction sets (generator of C02) x one fault drawn kind-first then location-uniform from '
         'the catalogue: too long, too short, not in code list, wrong character class, control character, impossible date, '
         'impossible time, required element removed, value in not-used element, extra trailing element, extra component, broken '
